@@ -635,6 +635,18 @@ fn gen_content(rng: &mut Rng, big: bool) -> Content {
             }
             return c;
         }
+        6 => {
+            // more than sixteen distinct weights: every rank pair of a few rows its own
+            for h in 0..rng.range(2, 5) as u8 {
+                for k in (h + 1)..13 {
+                    let w = ((1 + (h as u32 * 13 + k as u32) % 61) as f32 / 64.0).to_bits();
+                    let kind = if (h + k) % 2 == 0 { Kind::Suited } else { Kind::Offsuit };
+                    for cb in rp_combos(kind, h, k) {
+                        c.insert(cb, w);
+                    }
+                }
+            }
+        }
         3 => {
             // alternating weights along a row: no two neighbours mergeable
             let kind = *rng.pick(&[Kind::Pocket, Kind::Suited, Kind::Offsuit]);
